@@ -100,5 +100,57 @@ def dynamics_add(inp):
     return {'violates': bool(bad), 'detail': bad[:3], 'n_bad': len(bad)}
 
 
+def mean_field_dynamics_add(inp):
+    """MeanFieldDynamics filled in arbitrary time order (constructor and add): times sorted, the field and every system's state stay
+    with their time"""
+    import itertools
+    import numpy as np
+    from oqupy.dynamics import MeanFieldDynamics
+    bad = []
+    base_t = [0.0, 0.1, 0.2, 0.3]
+    for nsys in (1, 2, 3):
+        for perm in itertools.permutations(range(4)):
+            def st(k, j):
+                return np.array([[k + 1.0, 0.1 * j], [0.1 * j, -(k + 1.0)]], dtype=complex)
+            for how in ('add', 'constructor'):
+                if how == 'add':
+                    d = MeanFieldDynamics()
+                    for k in perm:
+                        d.add(base_t[k], [st(k, j) for j in range(nsys)], (k + 1) * (1 + 2j))
+                else:
+                    d = MeanFieldDynamics(times=[base_t[k] for k in perm], system_states_list=[[st(k, j) for j in range(nsys)] for k in perm],
+                                          fields=[(k + 1) * (1 + 2j) for k in perm])
+                ok = list(d.times) == base_t and all(abs(d.fields[k] - (k + 1) * (1 + 2j)) < 1e-12 for k in range(4)) and len(d.system_dynamics) == nsys
+                for j in range(nsys if ok else 0):
+                    sd = d.system_dynamics[j]
+                    ok = ok and list(sd.times) == base_t and all(np.allclose(sd.states[k], st(k, j)) for k in range(4))
+                if not ok:
+                    bad.append({'systems': nsys, 'order of insertion': list(perm), 'filled by': how})
+    return {'violates': bool(bad), 'detail': bad[:4], 'n_bad': len(bad)}
+
+
+def dynamics_expectations(inp):
+    """Dynamics.expectations: entry j is Tr(O rho_j) of the state stored with time j (states added out of order), trace for O = None,
+    real part iff real=True"""
+    import numpy as np
+    from oqupy.dynamics import Dynamics
+    rng = np.random.default_rng(2)
+    ts = [0.3, 0.0, 0.2, 0.1]
+    sts = {t: rng.normal(size=(2, 2)) + 1j * rng.normal(size=(2, 2)) for t in ts}
+    d = Dynamics()
+    for t in ts:
+        d.add(t, sts[t])
+    op = rng.normal(size=(2, 2)) + 1j * rng.normal(size=(2, 2))
+    bad = []
+    for o in (None, op):
+        for real in (False, True):
+            t, e = d.expectations(o, real=real)
+            want = [np.trace((np.eye(2) if o is None else o) @ sts[x]) for x in sorted(ts)]
+            want = np.real(want) if real else np.array(want)
+            if list(t) != sorted(ts) or np.iscomplexobj(e) == real or np.abs(np.array(e) - want).max() > 1e-12:
+                bad.append({'operator given': o is not None, 'real': real})
+    return {'violates': bool(bad), 'detail': bad}
+
+
 # thorough tier (bounded native sweeps): (function, inputs, obligation of the open finding it reproduces or None)
-THOROUGH = [('steps_search', {}, None), ('compute_dynamics_times', {}, None), ('dynamics_add', {}, None)]
+THOROUGH = [('steps_search', {}, None), ('compute_dynamics_times', {}, None), ('dynamics_add', {}, None), ('mean_field_dynamics_add', {}, None), ('dynamics_expectations', {}, None)]
